@@ -41,9 +41,12 @@ def one(args):
         os.makedirs(env['TMPDIR'])
         if not skip_suite:
             junit = os.path.join(top, 'junit.xml')
-            subprocess.run(['/venv/bin/python', '-m', 'pytest', '-q', '-p', 'no:cacheprovider', '--timeout=900',
-                            '--continue-on-collection-errors', '--junitxml=' + junit],
-                           cwd=scratch, env=env, capture_output=True, timeout=1800)
+            try:
+                subprocess.run(['/venv/bin/python', '-m', 'pytest', '-q', '-p', 'no:cacheprovider', '--timeout=60',
+                                '--continue-on-collection-errors', '--junitxml=' + junit],
+                               cwd=scratch, env=env, capture_output=True, timeout=240)
+            except subprocess.TimeoutExpired:
+                return dict(m, verdict='suite', note='suite timed out')
             passed = set()
             try:
                 for tc in ET.parse(junit).iter('testcase'):
